@@ -195,12 +195,12 @@ func Run(r *vk.Run) {
 	r.Assume("datastore writes that fail while the process survives are outside the quantifier (it names crashes): observed (write_fault_observations), not judged")
 	rp := &reporter{r: r, seen: map[string]int{}, max: map[string]int64{}}
 
-	nSeq := r.N(3000, 100000)
+	nSeq := r.N(15000, 100000)
 	nClean := nSeq * 6 / 10
 	nA := nSeq * 2 / 10
 	nLegacy := nSeq / 10
 	nB := nSeq - nClean - nA - nLegacy
-	nConc := r.N(400, 6000)
+	nConc := r.N(1500, 6000)
 
 	// the case lists are a function of the seed only
 	rng := r.Rand("sequential")
@@ -246,7 +246,7 @@ func Run(r *vk.Run) {
 	pool(len(templates), func(i int) { guarded(r, templates[i], func() { rp.seq(templates[i], Judge(templates[i])) }) })
 	pool(len(legacy), func(i int) { guarded(r, legacy[i], func() { rp.seq(legacy[i], Judge(legacy[i])) }) })
 	guarded(r, "write-fault probes", func() { writeFaultProbes(r) })
-	guarded(r, "bound-change probes", func() { boundChangeProbes(r, r.Rand("bound-change"), r.N(300, 6000)) })
+	guarded(r, "bound-change probes", func() { boundChangeProbes(r, r.Rand("bound-change"), r.N(1500, 6000)) })
 
 	// 2. concurrent histories (unique ids: outside both trigger regions)
 	var cmu sync.Mutex
